@@ -170,6 +170,27 @@ def build_occupant(root, occ):
                'symlink_dangling': os.path.join(ext, 'nothing-here')}[occ]
         os.symlink(tgt, p)
         return p, [p, ext]
+    elif occ in ('dir_links', 'array_links'):
+        ext = os.path.join(root, 'external')
+        os.makedirs(os.path.join(ext, 'vdir'))
+        os.makedirs(os.path.join(ext, 'idir'))
+        for nm in ('data.bin', 'descr.json', 'readme.txt', 'meta.json'):
+            with open(os.path.join(ext, nm), 'w') as f:
+                f.write('precious ' + nm)
+        with open(os.path.join(ext, 'vdir', 'inner.txt'), 'w') as f:
+            f.write('inner')
+        if occ == 'dir_links':
+            os.mkdir(p)
+            links = {'arrayvalues.bin': 'data.bin', 'arraydescription.json': 'descr.json', 'README.txt': 'readme.txt',
+                     'metadata.json': 'meta.json', 'values': 'vdir', 'indices': 'idir'}
+        else:
+            darr.asarray(p, np.arange(5, dtype='float32'), metadata={'old': True})
+            os.unlink(os.path.join(p, 'README.txt'))
+            os.unlink(os.path.join(p, 'metadata.json'))
+            links = {'README.txt': 'readme.txt', 'metadata.json': 'meta.json'}
+        for nm, tgt in links.items():
+            os.symlink(os.path.join(ext, tgt), os.path.join(p, nm))
+        return p, [ext]
     elif occ == 'dir_foreign':
         os.mkdir(p)
     elif occ == 'array_larger':
